@@ -26,6 +26,7 @@ from batchie.policies.k_per_sample import KPerSamplePlatePolicy  # noqa: E402
 from batchie.scoring.main import ChunkedScoresHolder, select_next_plate  # noqa: E402
 
 PROP = "C16"
+EPILOGUE_ITEMS = 2
 LEVEL = "model_checking"
 ENGINE = "E3-state-bfs"
 TECHNIQUE = (
